@@ -14,7 +14,7 @@
 
 const char *vf_name = "c10_cxx";
 
-#define MAXNAMES 6
+#define MAXNAMES 8
 #define MAXDEPTH 4
 #define MAXU     96
 #define MAXVAL   320
@@ -76,11 +76,21 @@ static const char *show(const struct entry *x)
 	d[o] = 0;
 	return d;
 }
+/* element names whose stored length equals the inline capacity exactly, per level */
+static void count_capacity_levels(const struct entry *x)
+{
+	static const char *lv[MAXDEPTH] = { "state:capacity-name-level1", "state:capacity-name-level2", "state:capacity-name-level3", "state:capacity-name-level4" };
+	for (int k = 0; k < x->n; k++) {
+		size_t l = namelen[x->e[k]];
+		if (l == 11) vf_count(lv[k], 1);
+	}
+}
 static void m_set(int i, const char *val, size_t vlen)
 {
 	for (int j = 0; j < nu; j++) if (is_prefix(&U[j], &U[i])) U[j].exists = 1;
 	U[i].hasval = 1; U[i].vlen = vlen;
 	memcpy(U[i].val, val, vlen + 1);
+	count_capacity_levels(&U[i]);
 }
 static void m_remove(int i)
 {
@@ -149,21 +159,25 @@ extern "C" uint64_t vf_cases(void) { return vf_thorough ? 300000 : 16000; }
 
 static void history(vf_rng *r)
 {
-	static const size_t nl[] = { 1, 1, 2, 3, 1, 2 };
+	static const size_t nl[] = { 1, 1, 2, 3, 1, 2, 2, 3 };
+	/* lengths around the inline name capacity of the elements (text + terminator == capacity) */
+	static const size_t bl[13] = { 10, 11, 11, 11, 12, 18, 19, 20, 83, 211, 11, 12, 10 };
 	int sets = 0, removes = 0, overw = 0, i;
 	char val[MAXVAL];
 	mpt::config::root root;
 
-	nnames = 4 + (int) vf_below(r, 3);
+	nnames = 5 + (int) vf_below(r, 4);
 	for (i = 0; i < nnames; i++) {
 		size_t l = nl[i];
 		if (i == 3 && vf_chance(r, 1, 2)) l = 254 + vf_below(r, 4);
 		if (i == 4 && vf_chance(r, 1, 2)) l = 0;
+		if (i >= 5 || (i == 2 && vf_chance(r, 1, 2))) { l = bl[vf_below(r, 13)]; vf_count("universe:boundary-element", 1); }
+		if (l == 11) vf_count("universe:capacity-element", 1);
 		namelen[i] = l;
 		for (size_t k = 0; k < l; k++) names[i][k] = (char) ('a' + (k ? vf_below(r, 26) : (uint32_t) i));
 		names[i][l] = 0;
 		vf_fp(names[i], l);
-		if (l > 3) vf_count("universe:long-element", 1);
+		if (l > 250) vf_count("universe:long-element", 1);
 		if (!l) vf_count("universe:empty-element", 1);
 	}
 	nu = 0;
